@@ -84,9 +84,9 @@ def trackAll (g : Ghost) : List Op → List Out → Ghost
   | _, _ => g
 
 /-- the invariant: the byte queue is the encoding of the tracked writes of the tracked owner -/
-structure Rel (s : State) (g : Ghost) : Prop where
-  owner : s.queue.owner = g.owner
-  buf   : s.queue.buf = encode g.items
+structure Rel (q : Queue) (g : Ghost) : Prop where
+  owner : q.owner = g.owner
+  buf   : q.buf = encode g.items
   len   : ∀ e ∈ g.items, e.length < 65536
 
 /-! ### the declaration never changes -/
@@ -152,5 +152,106 @@ theorem step_decl (s : State) (op : Op) : (step s op).1.base.decl = s.base.decl 
     · split
       · rename_i h; exact stepConn_decl _ _ _ _ _ h
       · rfl
+
+/-! ### one step keeps the invariant -/
+
+theorem rel_empty : Rel Queue.empty ⟨none, []⟩ := ⟨rfl, rfl, by simp⟩
+
+theorem enqueue_rel {q q' : Queue} {g : Ghost} (h : Rel q g) {S c : Nat} {e : List UInt8}
+    (hS : S < 65536) (he : q.enqueue S c e = some q') : Rel q' ⟨some c, g.items ++ [e]⟩ := by
+  unfold Queue.enqueue at he
+  split at he
+  · contradiction
+  · rename_i hcond
+    cases he
+    refine ⟨rfl, ?_, ?_⟩
+    · simp only [h.buf, encode_append]
+    · intro x hx
+      rcases List.mem_append.mp hx with hx | hx
+      · exact h.len x hx
+      · have hx' : x = e := by simpa using hx
+        subst hx'
+        have : ¬ (x.length + 2 > S - q.buf.length) := fun y => hcond (Or.inl y)
+        omega
+
+theorem free_rel {q : Queue} {g : Ghost} (h : Rel q g) (c : Nat) :
+    Rel (q.free c) (if g.owner = some c then ⟨none, []⟩ else g) := by
+  unfold Queue.free
+  rw [h.owner]
+  split
+  · exact rel_empty
+  · exact h
+
+theorem accepted_error (op code : UInt8) (hd : Nat) (cb : Nat) :
+    accepted (.resp (errorResponse op code hd) cb) = false := by
+  simp [accepted, errorResponse]
+
+theorem handlePrepare_tracks (s : State) (g : Ghost) (h : Rel s.queue g) (S : Nat) (hS : S < 65536)
+    (c : Nat) (conn : Conn) (rest : List UInt8) :
+    Rel (handlePrepare s S c conn (0x16 :: rest)).1.queue
+      (if accepted (handlePrepare s S c conn (0x16 :: rest)).2 then ⟨some c, g.items ++ [rest]⟩ else g) := by
+  rcases rest with _ | ⟨lo, _ | ⟨hi, _ | ⟨olo, _ | ⟨ohi, data⟩⟩⟩⟩ <;>
+    simp only [handlePrepare, accepted_error, Bool.false_eq_true, if_false]
+  · exact h
+  · exact h
+  · exact h
+  · exact h
+  · cases ha : attrAt? s.base.decl (read16 lo hi) with
+    | none => simp only [accepted_error, Bool.false_eq_true, if_false]; exact h
+    | some a =>
+      cases hw : writeAccess s.base.mem conn.cfg conn.sec a 0 [] with
+      | none => simp only [hw, accepted, Bool.false_eq_true, if_false]; exact h
+      | some w =>
+        by_cases hrc : w.rc = .success
+        · cases he : s.queue.enqueue S c (lo :: hi :: olo :: ohi :: data) with
+          | none =>
+            simp only [hw, hrc, ne_eq, not_true_eq_false, if_false, List.drop_succ_cons, List.drop_zero, he,
+              accepted_error, Bool.false_eq_true]
+            exact h
+          | some q' =>
+            simp only [hw, hrc, ne_eq, not_true_eq_false, if_false, List.drop_succ_cons, List.drop_zero, he,
+              accepted, beq_self_eq_true, if_true]
+            exact enqueue_rel h hS he
+        · simp only [hw, hrc, ne_eq, not_false_eq_true, if_true, accepted_error, Bool.false_eq_true, if_false]
+          exact h
+
+theorem executed_invalid (hd cb : Nat) : executed (.resp (errorResponse 0x18 0x04 hd) cb) = false := by
+  simp [executed, errorResponse]
+
+theorem executed_fail (rc : Rc) (hd cb : Nat) :
+    executed (.resp (errorResponse 0x18 (if rc = .invalidLength then 0x0d else 0x07) hd) cb) = true := by
+  by_cases h : rc = .invalidLength <;> simp [executed, errorResponse, h]
+
+theorem handleExecute_tracks (s : State) (g : Ghost) (h : Rel s.queue g) (c : Nat) (conn : Conn)
+    (rest : List UInt8) :
+    Rel (handleExecute s c conn (0x18 :: rest)).1.queue
+      (if executed (handleExecute s c conn (0x18 :: rest)).2 = true ∧ g.owner = some c then ⟨none, []⟩ else g) := by
+  rcases rest with _ | ⟨flag, _ | ⟨x, tl⟩⟩
+  · simp only [handleExecute, executed_invalid, Bool.false_eq_true, false_and, if_false]; exact h
+  · simp only [handleExecute]
+    by_cases hbad : flag ≠ 0 ∧ flag ≠ 1
+    · rw [if_pos hbad]
+      simp only [executed_invalid, Bool.false_eq_true, false_and, if_false]; exact h
+    · rw [if_neg hbad]
+      by_cases h1 : flag = 1
+      · rw [if_pos h1]
+        cases hel : s.queue.elementsOf c with
+        | none => simp only [executed, Bool.false_eq_true, false_and, if_false]; exact h
+        | some es =>
+          cases hap : applyQueued s.base.decl conn.sec s.base.mem conn.cfg 0 es with
+          | none => simp only [hap, executed, Bool.false_eq_true, false_and, if_false]; exact h
+          | some r =>
+            cases hf : r.fail with
+            | none =>
+              simp only [hap, hf, executed, beq_self_eq_true, true_and]
+              exact free_rel h c
+            | some p =>
+              obtain ⟨rc, hd⟩ := p
+              simp only [hap, hf, executed_fail, true_and]
+              exact free_rel h c
+      · rw [if_neg h1]
+        simp only [executed, beq_self_eq_true, true_and]
+        exact free_rel h c
+  · simp only [handleExecute, executed_invalid, Bool.false_eq_true, false_and, if_false]; exact h
 
 end BluetoeModel.AttWriteQueue
